@@ -266,7 +266,7 @@ def stepTh (cfg : Cfg) (s : St) (me : Nat) (t : Th) (o : Nat) : Option (St × Th
     | none => some (s, { t with pc := .rf0, sd := true })          -- AttributeError: `except Exception`
   | .rread =>
     if o = 1 then (if connDead s (t.io.getD 0) then some (s, { t with pc := .rf0, sd := false }) else none)
-    else if o = 2 then some (s, { t with pc := .c0 })      -- heartbeat: queue_request → connect()
+    else if o = 2 then some (s, { t with pc := .rhbq })    -- heartbeat: `_queue_request` (not through connect(): it holds `_lock` while this thread has to read the replies)
     else if o = 3 then some (s, { t with pc := .rf0, sd := true })      -- any other exception: `except Exception`
     else some (s, { t with pc := .rcheck })
   | .rhbq => some (s, { t with q := s.txq, pc := .rhb })
